@@ -153,6 +153,13 @@ pub fn knobs(profile: &str, thorough: bool, rng: &mut Rng) -> Knobs {
                 kn.walk_len = rng.below(12);
             }
             kn.drain = true;
+            // the last outside handle may also be released through the raw API
+            if rng.chance(1, 3) {
+                set_w(&mut kn, K::IntoRaw, 3);
+                set_w(&mut kn, K::FromRaw, 1);
+                set_w(&mut kn, K::IncStrong, 1);
+                set_w(&mut kn, K::DecStrong, 3);
+            }
         }
         "C04" => {
             recording_discipline(rng, &mut kn);
@@ -177,6 +184,13 @@ pub fn knobs(profile: &str, thorough: bool, rng: &mut Rng) -> Knobs {
             set_w(&mut kn, K::FromRaw, 2);
             set_w(&mut kn, K::IncStrong, 1);
             set_w(&mut kn, K::DecStrong, 1);
+            // handle-creating / handle-consuming calls are handle creation and destruction too
+            if rng.chance(1, 2) {
+                set_w(&mut kn, K::MakeMut, 3);
+                set_w(&mut kn, K::TryUnwrap, 1);
+                set_w(&mut kn, K::GetMut, 1);
+                set_w(&mut kn, K::DropValue, 1);
+            }
         }
         "C08" => {
             kn.adopt_p = match rng.below(4) {
@@ -258,6 +272,11 @@ pub fn knobs(profile: &str, thorough: bool, rng: &mut Rng) -> Knobs {
             set_w(&mut kn, K::DecStrong, 2);
             set_w(&mut kn, K::DropValue, 3);
             kn.walk_len += 8;
+            // some histories also forget an unadopt before consuming the handle
+            if rng.chance(1, 4) {
+                kn.elide_p = 1 + rng.below(3) as u32;
+                set_w(&mut kn, K::Take, 8);
+            }
         }
         "C13" => {
             kn.adopt_p = if rng.chance(3, 4) { 8 } else { 5 };
@@ -265,6 +284,15 @@ pub fn knobs(profile: &str, thorough: bool, rng: &mut Rng) -> Knobs {
             set_w(&mut kn, K::Take, 12);
             with_weak(rng, &mut kn, false);
             kn.walk_len += 6;
+            // "arbitrary further" operations include giving the taken handle up
+            if rng.chance(1, 3) {
+                set_w(&mut kn, K::TryUnwrap, 3);
+                set_w(&mut kn, K::MakeMut, 2);
+                set_w(&mut kn, K::DropValue, 2);
+                set_w(&mut kn, K::IntoRaw, 1);
+                set_w(&mut kn, K::FromRaw, 1);
+                set_w(&mut kn, K::DecStrong, 1);
+            }
         }
         "C14" => {
             recording_discipline(rng, &mut kn);
